@@ -1862,7 +1862,10 @@ class Interp:
                 return None
             if any(isinstance(ev, (Store, Mut)) and not ev.attr.startswith("$") for ev in flatten(st1.trace[n0:])):
                 return None
-            if not isinstance(v, Const) or (val is not None and val.v != v.v):
+            if isinstance(v, Poly) and v.is_const():
+                if val is not None and not (isinstance(val, Poly) and val == v):
+                    return None
+            elif not isinstance(v, Const) or (val is not None and not (isinstance(val, Const) and val.v == v.v)):
                 return None
             val = v
         return val
@@ -2019,6 +2022,12 @@ class Interp:
             if (isinstance(base, (ListV, CollV, DictV)) or (isinstance(base, Unk) and base.typ and base.typ[0] in ("list", "set", "dict"))) \
                     and e.attr in MUTATORS and isinstance(e.value, (ast.Name, ast.Attribute)) and isinstance(e.ctx, ast.Load):
                 return BoundV(op=e.attr, ref=e.value)
+            if isinstance(base, EnumSet) and base.single() is not None and e.attr in ("name", "value"):
+                if e.attr == "name":
+                    return Const(base.single())
+                val = self.repo.enums[base.cls].get(base.single())
+                if isinstance(val, (int, float)):
+                    return Poly.const(val)
             tag = f"{self.path_of(base, ast.unparse(e.value))}.{e.attr}"
             return Unk(tag, fr.ft.type_of(e))
         if isinstance(e, ast.UnaryOp):
@@ -2219,6 +2228,20 @@ class Interp:
                     if not any(isinstance(n, ast.Name) and n.id in outer for n in ast.walk(conj)):
                         preds.append((g.target.id, conj))
             base = " / ".join(ast.unparse(g0.iter) for g0 in e.generators)
+            if len(e.generators) == 2 and isinstance(e.generators[0].target, ast.Name) and isinstance(g.iter, ast.Attribute) and isinstance(g.iter.value, ast.Name) \
+                    and g.iter.value.id == e.generators[0].target.id:
+                # all members of all owners: named like chain.from_iterable would name it; conditions on the owner (and conditions on
+                # the member that mention the owner) are part of the name -- the result then does not cover every owner
+                self._quiet += 1
+                try:
+                    ov = self.eval(e.generators[0].iter, st, fr)
+                finally:
+                    self._quiet -= 1
+                base = f"{self.path_of(ov, ast.unparse(e.generators[0].iter))} / *.{g.iter.attr}"
+                oc = list(e.generators[0].ifs) + [cj for c in g.ifs for cj in (c.values if isinstance(c, ast.BoolOp) and isinstance(c.op, ast.And) else [c])
+                                                   if any(isinstance(n, ast.Name) and n.id in outer for n in ast.walk(cj))]
+                if oc:
+                    base = base.replace(" / ", "[if " + " and ".join(ast.unparse(c) for c in oc) + "] / ", 1)
             typ = fr.ft.type_of(e)
             if typ and typ[0] in ("list", "set") and typ[1]:
                 return CollV(base, preds, typ, "set" if isinstance(e, ast.SetComp) else "list")
@@ -2401,6 +2424,10 @@ class Interp:
             if all(isinstance(v, Poly) and v.is_const() for v in vals):
                 cs = [v.const_value() for v in vals]
                 return Poly.const(max(cs) if fname == "max" else min(cs))
+        if fname == "reversed" and len(e.args) == 1 and not e.keywords:
+            rv = self._eval_iterable(e.args[0], st, fr)
+            if isinstance(rv, ListV):
+                return ListV(list(reversed(rv.items)), True, "list")
         if fname == "range" and 1 <= len(e.args) <= 2:
             vals = [self.eval(a, st, fr) for a in e.args]
             if all(isinstance(v, Poly) and v.is_const() and v.const_value().denominator == 1 for v in vals):
@@ -2465,6 +2492,29 @@ class Interp:
             revv = self.eval(revn, st, fr) if revn is not None else FALSE
             if isinstance(base, CollV):
                 return CollV(base.base, base.preds, base.typ, "list", cpreds=base.cpreds)  # element facts survive a permutation
+            if isinstance(base, ListV) and base.items and isinstance(keyv, FuncV) and isinstance(self._truth_of_value(revv), bool) and not self._quiet_sort_off():
+                # a known list and a key that evaluates to numbers (or tuples of numbers) for every item: sorted here (stable)
+                keys = []
+                for it in base.items:
+                    call = ast.copy_location(ast.Call(func=ast.Name(id="__key__", ctx=ast.Load()), args=[ast.Name(id="__item__", ctx=ast.Load())], keywords=[]), e)
+                    ast.fix_missing_locations(call)
+                    saved = st.env
+                    st.env = dict(saved)
+                    st.env["__key__"], st.env["__item__"] = keyv, it
+                    self._quiet += 1
+                    try:
+                        kv = self.eval_call(call, st, fr, False)
+                    finally:
+                        self._quiet -= 1
+                        st.env = saved
+                    parts = kv.items if isinstance(kv, ListV) and kv.kind == "tuple" else [kv]
+                    if not all(isinstance(x, Poly) and x.is_const() for x in parts):
+                        keys = None
+                        break
+                    keys.append(tuple(x.const_value() for x in parts))
+                if keys is not None:
+                    order = sorted(range(len(keys)), key=lambda i: keys[i], reverse=bool(self._truth_of_value(revv)))
+                    return ListV([base.items[i] for i in order], True, "list")
             return SortedV(base, keyv, revv, e, dict(st.env))
         if fname in ("list", "tuple", "sorted", "set") and len(e.args) >= 1:
             inner = self._eval_iterable(e.args[0], st, fr)
@@ -2491,6 +2541,10 @@ class Interp:
                 u.reverse = t   # True / False / None (not decided)
                 return u
             return Unk(f"{fname}~{next(self._fresh)}:{ast.unparse(e.args[0])[:40]}", fr.ft.type_of(e))
+        if ast.unparse(f) in ("itertools.chain.from_iterable", "chain.from_iterable") and len(e.args) == 1 and not e.keywords:
+            fv = self._flatten(e.args[0], st, fr)
+            if fv is not None:
+                return fv
         if ast.unparse(f) in ("itertools.chain", "chain") and e.args and not e.keywords:
             parts = [self._eval_iterable(a, st, fr) for a in e.args]
             if all(isinstance(x, ListV) for x in parts):
@@ -2595,6 +2649,50 @@ class Interp:
             return Obj(f"new{next(self._fresh)}:{fname}", fname)
         t = fr.ft.type_of(e)
         return self.value_for_type(f"{ast.unparse(f)}()~{next(self._fresh)}", t) if t else Unk(f"{ast.unparse(f)}()~{next(self._fresh)}")
+
+    def _flatten(self, a, st, fr):
+        """chain.from_iterable(<the `attr` list of every element of a collection>) -> the collection of all those members, named
+        "<outer path> / *.<attr>"; a condition on the outer elements becomes part of the name (the result then no longer covers every
+        owner).  The argument may be map(lambda o: o.attr, C), list(...) of it, or a generator / list comprehension."""
+        while isinstance(a, ast.Call) and isinstance(a.func, ast.Name) and a.func.id in ("list", "tuple", "iter") and len(a.args) == 1 and not a.keywords:
+            a = a.args[0]
+        outer = var = body = None
+        conds = []
+        if isinstance(a, ast.Call) and isinstance(a.func, ast.Name) and a.func.id == "map" and len(a.args) == 2 and not a.keywords:
+            lam = self._as_lambda(a.args[0], st)
+            if lam is not None and len(lam.args.args) == 1:
+                var, body, outer = lam.args.args[0].arg, lam.body, a.args[1]
+        elif isinstance(a, (ast.GeneratorExp, ast.ListComp)) and len(a.generators) == 1 and isinstance(a.generators[0].target, ast.Name):
+            var, body, outer, conds = a.generators[0].target.id, a.elt, a.generators[0].iter, list(a.generators[0].ifs)
+        if var is None or not (isinstance(body, ast.Attribute) and isinstance(body.value, ast.Name) and body.value.id == var):
+            return None
+        ov = self._eval_iterable(outer, st, fr)
+        if isinstance(ov, ListV):
+            items = []
+            for o in ov.items:
+                if conds:
+                    return None
+                lv = st.heap.get((o.name, body.attr)) if isinstance(o, Obj) else None
+                if lv is None and isinstance(o, Obj):
+                    lv = ListV(self.collections[f"{o.name}.{body.attr}"], False) if f"{o.name}.{body.attr}" in self.collections else None
+                if not isinstance(lv, ListV):
+                    return None
+                items.extend(lv.items)
+            return ListV(items, True, "list")
+        key = self.path_of(ov, ast.unparse(outer))
+        if isinstance(ov, CollV) and ov.preds:
+            key += "[" + " and ".join(ast.unparse(b) for _p, b in ov.preds) + "]"
+        if conds:
+            key += "[if " + " and ".join(ast.unparse(c) for c in conds) + "]"
+        et = ov.typ[1] if isinstance(ov, (CollV, Unk)) and ov.typ and ov.typ[0] in ("list", "set") else None
+        if et is None:
+            ct = fr.ft.type_of(outer)
+            et = ct[1] if ct and ct[0] in ("list", "set") else None
+        mt = self.types.field_type(et[1], body.attr) if et and et[0] == "obj" else None
+        return CollV(f"{key} / *.{body.attr}", [], mt, "list")
+
+    def _quiet_sort_off(self):
+        return False
 
     def _getter_lambda(self, f):
         """`attrgetter("a")` / `operator.itemgetter(0)` written out as the lambda it stands for (None for anything else)."""
@@ -2971,6 +3069,9 @@ class Interp:
             return a.v == b.v
         if type(a) is Unk and type(b) is Unk and a.tag == b.tag and not a.tag.startswith(("comp~", "dict~", "chain~", "binop~", "union~")):
             return True   # the same unknown (same access path) read twice
+        for x, y in ((a, b), (b, a)):
+            if isinstance(x, Const) and isinstance(x.v, str) and (isinstance(y, (Poly, DictV, EnumSet)) or (isinstance(y, ListV) and y.fresh)):
+                return False   # a string never equals a number, an enum member or a container
         if isinstance(a, EnumSet) and isinstance(b, EnumSet):
             va, vb = self._enum_val(a), self._enum_val(b)
             if not (va & vb):
@@ -3054,6 +3155,16 @@ class Interp:
             return cur == truth
         if isinstance(test, ast.UnaryOp) and isinstance(test.op, ast.Not):
             return self.assume(test.operand, not truth, st, fr)
+        if isinstance(test, ast.Compare) and len(test.ops) > 1:
+            # `a < b <= c` is `a < b and b <= c` (the operands here are names / attributes / constants: evaluating b twice changes nothing)
+            memo = self.__dict__.setdefault("_chain_memo", {})
+            if id(test) not in memo:
+                parts, left = [], test.left
+                for op, right in zip(test.ops, test.comparators):
+                    parts.append(ast.copy_location(ast.Compare(left=left, ops=[op], comparators=[right]), test))
+                    left = right
+                memo[id(test)] = (test, ast.copy_location(ast.BoolOp(op=ast.And(), values=parts), test))
+            return self.assume(memo[id(test)][1], truth, st, fr)
         if isinstance(test, ast.BoolOp):
             conj = isinstance(test.op, ast.And)
             if conj == truth:
@@ -3170,7 +3281,7 @@ class Interp:
             saved = st.env
             st.env = dict(penv)
             try:
-                ok = self.assume(pnode, truth, st, pfr)
+                ok = True if pnode is test else self.assume(pnode, truth, st, pfr)
             finally:
                 st.env = saved
             if ok is False:
